@@ -24,7 +24,19 @@ EXPLANATION = (
     "write and is popped exactly on a full one; R4 every path that leaves data queued re-arms EPOLLOUT through updateInterest, and "
     "updateInterest sets EPOLLOUT whenever the queue is non-empty; R5 the raw ::send is reachable only when the session has no TLS "
     "(with the checked invariant tlsMode!=None ⇒ tlsState∈{Handshake,Open}); R6 the read loop hands every n>0 result to the data "
-    "callback with that n and keeps reading until would-block/close; R7 the oldest queued buffer is dropped only when closeOnBackpressure is off.")
+    "callback with that n and keeps reading until would-block/close; R7 the oldest queued buffer is dropped only when closeOnBackpressure is off. "
+    "R2–R4 and R7 read doSend/writePending together with the non-virtual TcpEngine helpers and in-place lambdas they call: values are traced through "
+    "parameters, lambda captures (a by-value copy taken before the variable is assigned is reported as stale), named locals and pure predicate helpers.")
+# rules whose verdict stays a verdict when the code runs through helpers the inventory has never seen (report.py's guard does not
+# downgrade their violations): they enter non-virtual TcpEngine helpers and in-place lambdas themselves (_events/_does/_may),
+# bind parameters / captures / named locals to the caller's values (_resolve), and refuse (AnalysisBroken) where an anchor
+# construct — the write call, the reference to wq.front(), the mask computation — is not where they can read it.
+FOLLOWS_HELPERS = {
+    "C01-R2": "(a)/(b) quantify over every access to _cmds in the header; the dispatch loop, the wq.empty() guard of the direct write and every wq insertion are followed into helpers and local lambdas with arguments bound to doSend's variables",
+    "C01-R3": "queueing / closing / erasing statements are found in doSend's and writePending's helpers and local lambdas; the tail's range operands and the erase range are traced back through parameters, captures (by-value copies checked for staleness) and named locals to the write's own result variable",
+    "C01-R4": "re-arm obligations follow a queue insertion out of the helper that holds it into its callers, and count a helper as re-arming only if every path through it does",
+    "C01-R7": "queue removals are enumerated in doSend and every helper it enters; the policy test is carried into the helper from its call site",
+}
 NOT_DECIDED = ["that the kernel / OpenSSL deliver what they accepted", "(int)size truncation for buffers > 2 GiB",
                "interleavings of application threads beyond 'order = order of _cmdMutex acquisition'", "byte-exactness as such"]
 
@@ -46,7 +58,7 @@ def _write_calls(f):
 
 
 def _result_var(f, call_elem):
-    """the local variable that receives the call's result (n = send(...); int n = send(...))"""
+    """the local variable that receives the call's result (n = send(...); int n = send(...)): {"n": name, "d": declaration id}"""
     pid = f.parent.get(call_elem.node["id"])
     while pid is not None:
         p = f.nodes[pid]
@@ -54,13 +66,534 @@ def _result_var(f, call_elem):
             pid = f.parent.get(pid)
             continue
         if p.get("k") == "bin" and p["op"] == "=" and p["lhs"].get("k") == "var":
-            return p["lhs"]["n"]
+            return {"n": p["lhs"]["n"], "d": p["lhs"].get("d")}
         if p.get("k") == "decl":
             for v in p["vars"]:
                 if v.get("init") is not None and any(x is call_elem.node for x in walk(v["init"])):
-                    return v["n"]
+                    return {"n": v["n"], "d": v.get("d")}
         return None
     return None
+
+
+# ------------------------------------------------------------------ following the code through helpers and named locals
+#
+# General mechanisms (nothing here knows a helper's or a local's name):
+#  * _Frame / _enter / _events: a call to a non-virtual member function of TcpEngine defined in the same header, or to a lambda that is
+#    defined in the calling function and invoked in place, is entered: its statements count as statements of the caller ("the helper
+#    does X" = every path through it does X, _must; "may do X" = some statement in it does, _may).
+#  * _resolve: a value written inside a helper or through a named local is expressed by what it was computed from — parameter ->
+#    the caller's argument, by-reference capture -> the captured variable, by-value capture -> the captured variable IF nothing
+#    assigns it between the creation of the lambda and the call (otherwise the copy is stale, and that is reported as such), local
+#    that is never re-assigned -> its initialiser IF nothing the initialiser reads is changed between the declaration and the use.
+#  * _inl: a condition spelled through a pure predicate function (`static bool f(const Session*) { return <expr>; }`) is read as
+#    that expression.
+#  * _Through: a predicate abstraction continued into a helper (entry state of the helper = what is known at its call).
+#  * _PA: PredAbs plus local bool variables as atoms, identified by declaration and followed through `b = b || x`.
+
+# functions whose role the rules state themselves (their bodies are judged by their own clauses, not re-read at each call)
+_ATOMIC = {TE + "::" + x for x in ("closeNow", "updateInterest", "modEpoll", "driveHandshake", "doSend", "writePending", "readAvail", "process",
+                                   "onSession", "enqueue", "send", "loop")}
+_MAXDEPTH = 4
+WQ_INSERTS = ("emplace_back", "push_back", "emplace_front", "push_front", "insert", "emplace")
+
+
+class _Frame:
+    """one activation on a chain of helper calls that starts in a rule's anchor function"""
+
+    def __init__(self, fb, f, parent=None, call=None):
+        self.fb, self.f, self.parent, self.call = fb, f, parent, call
+        self.depth = 0 if parent is None else parent.depth + 1
+        self.kids = {}
+
+    def top(self, e):
+        """the element of the anchor function during which element e of this frame runs"""
+        fr, x = self, e
+        while fr.parent is not None:
+            fr, x = fr.parent, fr.call
+        return x
+
+    def root(self):
+        fr = self
+        while fr.parent is not None:
+            fr = fr.parent
+        return fr
+
+    def where(self, e):
+        s = "%s:%s" % (last(self.f.name.split("::$lambda")[0]) + ("::λ" if self.f.kind == "lambda" else ""), getattr(e, "line", 0))
+        if self.parent is not None:
+            s += " (called at %s)" % self.parent.where(self.call)
+        return s
+
+
+def _enter(fr, e):
+    """the helper a call element enters, as a new frame; None for everything that is not followed"""
+    if e.kind != "stmt" or fr.depth >= _MAXDEPTH:
+        return None
+    key = (e.block.id, e.idx)
+    if key in fr.kids:
+        return fr.kids[key]
+    n, g = e.node, None
+    k, c = n.get("k"), n.get("callee") or ""
+    if k == "opcall" and n.get("op") == "()" and "$lambda" in c:
+        for (ln, lf) in fr.f.lambdas:
+            if lf.name == c and lf.ok:
+                g = lf
+        if g is None and c.startswith(TE + "::"):
+            # a lambda invoked outside the function that defines it: what its captures denote cannot be established
+            raise AnalysisBroken("%s invokes a lambda that is not defined in it (%s): the rule cannot bind its captures" % (short(fr.f.name), last(c)))
+    elif k in ("mcall", "call") and c.startswith(TE + "::") and c not in _ATOMIC and not n.get("virt") and "$lambda" not in c:
+        if k == "call" or strip_casts(n.get("obj") or {}).get("k") == "this":
+            cands = [x for x in fr.fb.by_name.get(c, []) if x.ok and x.file.endswith(FILE) and len(x.params) == len(n.get("args", []))]
+            if len({(x.file, x.line) for x in cands}) == 1:
+                g = cands[0]
+            elif cands:
+                raise AnalysisBroken("call to %s: overloads cannot be told apart by arity" % short(c))
+    if g is not None:
+        a = fr
+        while a is not None:        # recursion is not unrolled
+            if a.f is g:
+                g = None
+                break
+            a = a.parent
+    ch = _Frame(fr.fb, g, fr, e) if g is not None else None
+    fr.kids[key] = ch
+    return ch
+
+
+def _events(fr):
+    """(frame, element) for every statement of the frame's function and, recursively, of the helpers it enters"""
+    for e in fr.f.stmts():
+        yield fr, e
+        ch = _enter(fr, e)
+        if ch is not None:
+            for x in _events(ch):
+                yield x
+
+
+def _does(fr, e, pred):
+    """element e does `pred` itself, or is a call into a helper every path of which does"""
+    if pred(e):
+        return True
+    ch = _enter(fr, e)
+    return ch is not None and _must(ch, pred)
+
+
+def _must(fr, pred):
+    c = fr.__dict__.setdefault("_must", {})
+    if pred not in c:
+        c[pred] = search(fr.f, ("entry",), "exit", stop=lambda x: _does(fr, x, pred), eh=False) is None
+    return c[pred]
+
+
+def _may(fr, e, pred):
+    """element e does `pred` itself, or enters a helper some statement of which does"""
+    if pred(e):
+        return True
+    ch = _enter(fr, e)
+    return ch is not None and any(pred(x) for (_, x) in _events(ch))
+
+
+def _decls(f):
+    c = f.__dict__.get("_c01_decls")
+    if c is None:
+        c = {}
+        for e in f.stmts():
+            if e.node.get("k") == "decl":
+                for v in e.node["vars"]:
+                    c.setdefault(v.get("d"), (e, v))
+        f.__dict__["_c01_decls"] = c
+    return c
+
+
+def _moved_from(f, n):
+    """the variable / field node n is (part of) the operand of std::move"""
+    pid, child = f.parent.get(n.get("id")), n
+    while pid is not None:
+        p = f.nodes[pid]
+        if p.get("k") == "cast" or (p.get("k") == "member" and p.get("b") is child):
+            child, pid = p, f.parent.get(pid)
+            continue
+        return p.get("k") == "call" and p.get("callee") in ("std::move", "std::forward")
+    return False
+
+
+def _kills(f, vs=(), flds=(), skip=None, through=True):
+    """elements of f that may change one of the locals `vs` (declaration ids) or one of the fields `flds`: assignment, ++/--,
+    mutating member call, address taken, moved from, written inside a lambda that captures it by reference.  through=False: a
+    write to a sub-object reached through the variable (`s->x = …`, `sr.a.clear()`) is not a change of the variable (it is found
+    through `flds` when the field matters)"""
+    inside = {id(x) for x in walk(skip)} if skip is not None else set()
+    out = []
+    for n in f.nodes.values():
+        k = n.get("k")
+        if not ((k == "var" and n.get("d") in vs) or (k == "member" and n.get("n") in flds)) or id(n) in inside:
+            continue
+        if k == "var" and not through:
+            par = f.nodes.get(f.parent.get(n.get("id")))
+            if par is not None and par.get("k") == "member" and par.get("b") is n:
+                continue
+        if access.classify(f, n) in ("write", "rw", "addr") or _moved_from(f, n):
+            e = f.elem_for(n)
+            if e is not None:
+                out.append(e)
+    for (ln, lf) in f.lambdas:
+        for c in ln.get("caps", []):
+            if c.get("d") in vs and c.get("by") == "ref" and lf.ok:
+                if any(x.get("k") == "var" and x.get("cap") and x.get("n") == c.get("n") and
+                       (access.classify(lf, x) in ("write", "rw", "addr") or _moved_from(lf, x)) for x in lf.nodes.values()):
+                    e = f.elem_for(ln)
+                    if e is not None:
+                        out.append(e)
+    return out
+
+
+def _own_kills(f, node_or_var):
+    """elements that change what the variable itself holds / denotes: none for a reference (it cannot be re-bound; writes through it
+    change the object it aliases, which is what its initialiser / argument denotes too), re-assignment only for a pointer, any
+    write for a value"""
+    t = (node_or_var.get("t") or "").rstrip()
+    if t.endswith("&"):
+        return []
+    return _kills(f, vs={node_or_var.get("d")}, through=not t.endswith("*"))
+
+
+def _between(f, a, k, b):
+    """element k can run after a and before b (on a path that does not pass a again)"""
+    if k is a or k is b:
+        return False
+    if k.kind == "stmt" and b.kind == "stmt" and isinstance(k.node, dict) and isinstance(b.node, dict) and k.node.get("id") is not None and b.node.get("id") is not None:
+        rk, rb = f.root_elem(k.node), f.root_elem(b.node)
+        if rk is not None and rk is rb:
+            return False        # same full statement (`q.push(std::move(x))`: x is read by the statement that moves from it)
+    return search(f, a, lambda x: x is k, stop=lambda x: x is b, eh=False) is not None and \
+        search(f, k, lambda x: x is b, stop=lambda x: x is a, eh=False) is not None
+
+
+def _resolve(fr, node, at=None):
+    """(frame, node, at, stale): `node` (evaluated at element `at` of frame `fr`) expressed by what it was computed from — see the
+    section comment.  stale is None, or a description when the value is a by-value lambda capture of a variable that is assigned
+    between the creation of the lambda and this invocation (the copy does not hold the variable's current value)."""
+    stale = None
+    if at is None and node is not None and node.get("id") is not None:
+        at = fr.f.elem_for(node)
+    for _ in range(24):
+        node = strip_wrappers(node)
+        if node is None:
+            break
+        if node.get("k") == "ctor" and node.get("copy"):
+            args = [a for a in node.get("args", []) if not a.get("def")]
+            if len(args) == 1:
+                node = args[0]
+                continue
+        if node.get("k") != "var":
+            break
+        f = fr.f
+        if node.get("cap"):
+            if f.kind != "lambda" or fr.parent is None or getattr(f, "lambda_node", None) is None:
+                break
+            cap = next((c for c in f.lambda_node.get("caps", []) if c.get("n") == node["n"] and "d" in c), None)
+            if cap is None or (cap.get("by") == "copy" and _own_kills(f, node)):
+                break
+            pf = fr.parent.f
+            if cap.get("by") == "copy":
+                made = pf.elem_for(f.lambda_node)
+                ws = [k for k in _kills(pf, vs={cap["d"]}, through="*" not in (node.get("t") or "")) if made is not None and _between(pf, made, k, fr.call)]
+                if made is None:
+                    break
+                if ws:
+                    stale = {"var": cap["n"], "captured_at": made.line or f.line, "assigned_at": sorted({k.line for k in ws}), "invoked_at": fr.call.line}
+            node = {"k": "var", "n": cap["n"], "d": cap["d"], "t": node.get("t")}
+            at, fr = fr.call, fr.parent
+            if stale:
+                break
+            continue
+        if "parm" in node:
+            if fr.parent is None or _own_kills(f, node):
+                break
+            args = fr.call.node.get("args", [])
+            if f.kind == "lambda":
+                args = args[1:]
+            if node["parm"] >= len(args):
+                break
+            node, at, fr = args[node["parm"]], fr.call, fr.parent
+            continue
+        dv = _decls(f).get(node.get("d"))
+        if dv is None or at is None:
+            break
+        de, v = dv
+        init = v.get("init")
+        if init is None:
+            break       # (a reference local is an alias of what it was bound to: same treatment, same checks)
+        if any(k is not de and _between(f, de, k, at) for k in _own_kills(f, v)):
+            break
+        vs = {x["d"] for x in walk(init) if x.get("k") == "var" and "d" in x}
+        flds = {x["n"] for x in walk(init) if x.get("k") == "member"}
+        if any(_between(f, de, k, at) for k in _kills(f, vs=vs, flds=flds, skip=init, through=False)):
+            break
+        node = init
+    return fr, node, at, stale
+
+
+def _val(fr, node, at=None):
+    """_resolve, value only (casts removed); None when the value is a stale copy"""
+    fr2, n2, at2, stale = _resolve(fr, node, at)
+    return None if stale else strip_casts(n2)
+
+
+def _is_var(fr, node, var, at=None):
+    """node holds, where it is evaluated, the current value of local `var` ({"n","d"}) of the anchor function"""
+    fr2, n2, at2, stale = _resolve(fr, node, at)
+    n2 = strip_casts(n2)
+    return stale is None and fr2.parent is None and n2 is not None and n2.get("k") == "var" and n2.get("d") == var["d"] and n2.get("n") == var["n"]
+
+
+def _is_field(fr, node, suffix, at=None):
+    """node denotes (through parameters, captures, copies) an object reached through the field …suffix"""
+    n2 = _val(fr, node, at)
+    return n2 is not None and n2.get("k") == "member" and n2.get("n", "").endswith(suffix)
+
+
+def _unwrap_iter(n):
+    while True:
+        n = strip_wrappers(n)
+        if n is not None and n.get("k") == "ctor" and "__normal_iterator" in (n.get("cls") or "") + (n.get("t") or ""):
+            args = [a for a in n.get("args", []) if not a.get("def")]
+            if len(args) == 1:
+                n = args[0]
+                continue
+        return n
+
+
+def _range_start(n):
+    """(container expression, offset expression | None) of `C.begin()`, `C.begin() + N`, `N + C.begin()`, `std::next(C.begin(), N)`"""
+    n = _unwrap_iter(n)
+    if n is None:
+        return None
+
+    def begin_of(x):
+        x = _unwrap_iter(x)
+        if x is not None and x.get("k") == "mcall" and last(x.get("callee", "")) in ("begin", "cbegin") and not [a for a in x.get("args", []) if not a.get("def")]:
+            return x.get("obj")
+        return None
+    c = begin_of(n)
+    if c is not None:
+        return c, None
+    parts = None
+    if n.get("k") == "opcall" and n.get("op") == "+" and len(n.get("args", [])) == 2:
+        parts = n["args"]
+    elif n.get("k") == "bin" and n.get("op") == "+":
+        parts = [n["lhs"], n["rhs"]]
+    elif n.get("k") == "call" and n.get("callee") in ("std::next", "std::advance") and len([a for a in n["args"] if not a.get("def")]) == 2:
+        parts = n["args"][:2]
+    if parts:
+        for (a, b) in ((parts[0], parts[1]), (parts[1], parts[0])):
+            c = begin_of(a)
+            if c is not None:
+                return c, b
+    return None
+
+
+def _range_end(n):
+    n = _unwrap_iter(n)
+    if n is not None and n.get("k") == "mcall" and last(n.get("callee", "")) in ("end", "cend") and not [a for a in n.get("args", []) if not a.get("def")]:
+        return n.get("obj")
+    return None
+
+
+_PRED_BODY = {}
+
+
+def _subst_params(n, args):
+    if not isinstance(n, dict):
+        return n
+    if n.get("k") == "var" and "parm" in n and not n.get("cap"):
+        return args[n["parm"]] if n["parm"] < len(args) else n
+    out = {}
+    for k, v in n.items():
+        if k == "id":
+            continue        # the copy belongs to no function: nothing may look it up by id
+        if isinstance(v, dict):
+            out[k] = _subst_params(v, args)
+        elif isinstance(v, list):
+            out[k] = [_subst_params(x, args) if isinstance(x, dict) else x for x in v]
+        else:
+            out[k] = v
+    return out
+
+
+def _pred_body(fb, call):
+    """return expression of a pure predicate helper (bool, one statement: `return <expr>;`) with the call's arguments substituted"""
+    c, args = call.get("callee") or "", call.get("args", [])
+    key = (id(fb), c, len(args))
+    if key not in _PRED_BODY:
+        body = None
+        cands = [g for g in fb.by_name.get(c, []) if g.ok and g.file.endswith(FILE) and len(g.params) == len(args) and g.raw.get("ret") == "bool"]
+        if len({(g.file, g.line) for g in cands}) == 1:
+            roots = [e for e in cands[0].stmts() if "root" in e.raw]
+            if len(roots) == 1 and roots[0].node.get("k") == "ret" and isinstance(roots[0].node.get("v"), dict):
+                body = roots[0].node["v"]
+        _PRED_BODY[key] = body
+    body = _PRED_BODY[key]
+    return None if body is None else _subst_params(body, args)
+
+
+def _inl(fb, leaf):
+    """leaf that reads a call to a pure predicate helper as the helper's return expression"""
+    depth = [0]
+
+    def leaf2(n):
+        r = leaf(n)
+        if r is not None:
+            return r
+        if n.get("k") in ("call", "mcall") and (n.get("callee") or "").startswith(TE + "::") and n.get("callee") not in _ATOMIC and not n.get("virt") and depth[0] < 3:
+            body = _pred_body(fb, n)
+            if body is not None:
+                depth[0] += 1
+                try:
+                    return translate(body, leaf2)
+                finally:
+                    depth[0] -= 1
+        return None
+    return leaf2
+
+
+class _PA(PredAbs):
+    """PredAbs with one more effect, ('assign2', atom, may_true, may_false): the atom becomes true in the states (before the
+    assignment) that satisfy may_true and false in those that satisfy may_false; a state may satisfy both (unknown operand)"""
+
+    def _apply(self, st, ops):
+        v = self.v
+        for op in ops or ():
+            if op[0] == "assign2":
+                st = v.set(st & v.mask(op[2]), op[1], True) | v.set(st & v.mask(op[3]), op[1], False)
+            else:
+                st = PredAbs._apply(self, st, [op])
+        return st
+
+
+def _with_bools(f, atoms, leaf, effects):
+    """(vocab, leaf, effects) extended by one atom per local bool of f — identified by its declaration, whatever it is called —
+    that follows initialisation and re-assignment (`b = b || x`, `b |= x`) exactly as far as the operands are known"""
+    bools = {}
+    for e in f.stmts():
+        if e.node.get("k") == "decl":
+            for v in e.node["vars"]:
+                if (v.get("t") or "").replace("const", "").strip() == "bool" and v.get("d") is not None:
+                    bools[v["d"]] = "b%s" % v["d"]
+    if len(atoms) + len(bools) > 11:
+        raise AnalysisBroken("%s: %d local bool variables — more than the predicate abstraction tracks" % (short(f.name), len(bools)))
+
+    def leaf2(n):
+        r = leaf(n)
+        if r is None and n.get("k") == "var" and n.get("d") in bools and not n.get("cap"):
+            return A(bools[n["d"]])
+        return r
+
+    def assign(atom, fm):
+        if fm is None:
+            return ("havoc", atom)
+        return ("assign2", atom, known_when(fm, True), known_when(fm, False))
+
+    def eff(e):
+        ops = list(effects(e) or [])
+        if e.kind != "stmt":
+            return ops
+        n = e.node
+        if n.get("k") == "decl":
+            for v in n["vars"]:
+                a = bools.get(v.get("d"))
+                if a:
+                    ops.append(assign(a, translate(v["init"], leaf2)) if v.get("init") is not None else ("havoc", a))
+        elif n.get("k") == "bin" and n["op"] in ("=", "|=", "&=", "^=") and strip_casts(n["lhs"]).get("k") == "var" and strip_casts(n["lhs"]).get("d") in bools:
+            a = bools[strip_casts(n["lhs"])["d"]]
+            rhs = translate(n["rhs"], leaf2)
+            if n["op"] == "=":
+                ops.append(assign(a, rhs))
+            elif n["op"] == "|=":
+                ops.append(assign(a, ("or?", A(a), rhs)))
+            elif n["op"] == "&=":
+                ops.append(assign(a, ("and?", A(a), rhs)))
+            else:
+                ops.append(("havoc", a))
+        return ops
+    return Vocab(list(atoms) + sorted(bools.values())), leaf2, eff
+
+
+class _Through:
+    """a predicate abstraction continued into helpers: mk(frame, init) builds the abstraction of one frame; the entry state of a
+    helper's frame is what is known just before its call"""
+
+    def __init__(self, mk):
+        self.mk, self.c = mk, {}
+
+    def pa(self, fr):
+        if id(fr) not in self.c:
+            init = None
+            if fr.parent is not None:
+                # (atoms of the caller's own bool locals — "b:name:decl", PredAbs track_bools — mean nothing in the helper)
+                lits = [x for x in self.pa(fr.parent).describe(fr.call) if not x.lstrip("!").startswith("b:")]
+                init = And(*[Not(A(x[1:])) if x.startswith("!") else A(x) for x in lits])
+            self.c[id(fr)] = self.mk(fr, init)
+        return self.c[id(fr)]
+
+    def entails(self, fr, e, fm):
+        return self.pa(fr).entails(e, fm)
+
+    def describe(self, fr, e):
+        return self.pa(fr).describe(e)
+
+
+def _at_most(fr, x, at, is_size):
+    """x is the size expression itself or std::min(…) of it and anything else: a length that cannot exceed the buffer (writing
+    less than everything is harmless as long as the short-write test compares with the full size — which the pos/partial atoms check)"""
+    x = _val(fr, x, at)
+    if x is None:
+        return False
+    if is_size(fr, x, at):
+        return True
+    if x.get("k") == "call" and x.get("callee") in ("std::min",):
+        return any(_at_most(fr, a, at, is_size) for a in x.get("args", []) if not a.get("def"))
+    return False
+
+
+def _wq_mutates(e):
+    return e.kind == "stmt" and _wq(e.node) in access.MUTATORS
+
+
+def _wq_inserts(e):
+    return e.kind == "stmt" and bool(_wq(e.node, WQ_INSERTS))
+
+
+def _closes(e):
+    return e.kind == "stmt" and e.node.get("k") == "mcall" and e.node.get("callee") == TE + "::closeNow"
+
+
+def _rearms(e):
+    return e.kind == "stmt" and e.node.get("k") == "mcall" and e.node.get("callee") in (TE + "::updateInterest", TE + "::closeNow")
+
+
+def _queues_or_closes(e):
+    return e.kind == "stmt" and (bool(_wq(e.node, ("emplace_back", "push_back", "emplace_front", "push_front"))) or _closes(e))
+
+
+def _queued_what(fr, e):
+    """what a write-queue insertion puts into the queue: ('whole',) — the request's payload; ('range', first, last, frame, at) — a
+    buffer built from an iterator range; ('other',)"""
+    args = [a for a in e.node.get("args", []) if not a.get("def")]
+    if _wq(e.node) in ("insert", "emplace") and args:
+        args = args[1:]         # position argument
+    if len(args) == 1:
+        fr2, n2, at2, stale = _resolve(fr, args[0], e)
+        n2 = strip_casts(n2)
+        if n2 is not None and n2.get("k") == "member" and n2.get("n", "").endswith("SendReq::payload"):
+            return ("whole",)
+        if n2 is not None and n2.get("k") == "ctor" and "vector" in (n2.get("cls") or "") + (n2.get("t") or ""):
+            ca = [a for a in n2.get("args", []) if not a.get("def")]
+            if len(ca) == 2:
+                return ("range", ca[0], ca[1], fr2, at2)
+    elif len(args) == 2 and _wq(e.node) in ("emplace_back", "emplace_front", "emplace"):
+        return ("range", args[0], args[1], fr, e)
+    return ("other",)
 
 
 # ------------------------------------------------------------------ R1
@@ -98,7 +631,27 @@ def r1(ctx, r):
     snd = fb.func(TE + "::send", file_suffix=FILE)
     r.instance()
     enq = [e for e in snd.stmts() if e.node.get("k") == "mcall" and e.node.get("callee") == TE + "::enqueue"]
-    w = search(snd, ("entry",), "exit", stop=lambda x: x in enq, eh=False, edge_ok=lambda b, si: not (b.cond is not None and show(b.cond).replace(" ", "") in ("n==0",) and b.edge_label(si) is True))
+    # (the one exception: the guard for an empty payload — a test `<length parameter> == 0`, whatever the parameter is called)
+    # the length parameter is the integer parameter that is used together with the data pointer (directly or through a local
+    # initialised from it) in one call / construction — memcpy(dst, data, n), ByteBuffer(p, p + n), …
+    ptrs = {p_["d"] for p_ in snd.params if "*" in (p_.get("t") or "") and p_.get("d") is not None}
+    for (de, v) in _decls(snd).values():
+        if v.get("init") is not None and any(x.get("k") == "var" and x.get("d") in ptrs for x in walk(v["init"])):
+            ptrs.add(v.get("d"))
+    lens = set()
+    for x in snd.nodes.values():
+        if x.get("k") in ("call", "mcall", "ctor", "opcall"):
+            vs = {y.get("d") for a in x.get("args", []) for y in walk(a) if y.get("k") == "var"}
+            if vs & ptrs:
+                lens |= {p_["d"] for p_ in snd.params if p_.get("d") in vs and "*" not in (p_.get("t") or "") and "&" not in (p_.get("t") or "")}
+
+    def empty_payload_edge(b, si):
+        cp = common.cmp_parts(strip_casts(b.cond)) if b.cond is not None else None
+        if not cp or cp[0] != "==" or b.edge_label(si) is not True:
+            return False
+        l, rr = strip_casts(cp[1]), strip_casts(cp[2])
+        return l.get("k") == "var" and "parm" in l and l.get("d") in lens and rr.get("k") == "int" and const_value(rr) == 0
+    w = search(snd, ("entry",), "exit", stop=lambda x: x in enq, eh=False, edge_ok=lambda b, si: not empty_payload_edge(b, si))
     r.expect(bool(enq) and w is None, snd, None, "send does not enqueue", "a path through TcpEngine::send accepts data without enqueueing a send command", witness=witness_str(snd, w),
              okdesc="send(): every non-empty payload is enqueued")
     # … and as ONE command: the command queue's lock is taken per enqueue, so a payload spread over several commands can be
@@ -157,11 +710,28 @@ def r2(ctx, r):
     proc = _fn(ctx, "process")
     begins = [e for e in proc.stmts() if e.node.get("k") == "mcall" and last(e.node.get("callee", "")) in ("begin", "rbegin", "cbegin", "crbegin")
               and (e.node.get("obj") or {}).get("k") == "var"]
+    if not begins:
+        # the dispatch loop may live in a helper that is handed the swapped-out deque: iteration starts found there count when
+        # the container they are called on is (through parameters / references) process()'s local deque
+        swapped = set()
+        for e in proc.stmts():
+            if e.node.get("k") == "mcall" and last(e.node.get("callee", "")) == "swap":
+                for x in [e.node.get("obj")] + list(e.node.get("args", [])):
+                    x = strip_wrappers(x)
+                    if x is not None and x.get("k") == "var" and x.get("d") is not None:
+                        swapped.add(x["d"])
+        for (fr, e) in _events(_Frame(fb, proc)):
+            if fr.parent is not None and e.node.get("k") == "mcall" and last(e.node.get("callee", "")) in ("begin", "rbegin", "cbegin", "crbegin"):
+                fr2, n2, at2, stale = _resolve(fr, e.node.get("obj"), e)
+                n2 = strip_casts(n2)
+                if fr2.parent is None and n2 is not None and n2.get("k") == "var" and n2.get("d") in swapped:
+                    begins.append(e)
     r.instance()
     r.expect(len(begins) >= 1 and all(last(e.node["callee"]) in ("begin", "cbegin") for e in begins), proc, begins[0] if begins else None,
              "dispatch order", "process() does not iterate the swapped-out commands front to back", okdesc="process(): range-for from begin()")
-    # (c)+(d) in doSend
+    # (c)+(d) in doSend — and in whatever helpers / local lambdas doSend runs through (_events)
     ds = _fn(ctx, "doSend")
+    root = _Frame(fb, ds)
     vocab = Vocab(["wqempty"])
 
     def leaf2(n):
@@ -169,89 +739,106 @@ def r2(ctx, r):
             return A("wqempty")
         return None
 
-    def eff2(e):
-        if e.kind == "stmt" and _wq(e.node) in access.MUTATORS:
-            return [("havoc", "wqempty")]
-        return None
-    pa = PredAbs(ds, vocab, leaf2, eff2)
+    def mk(fr, init):
+        def eff2(e):
+            if e.kind == "stmt" and _may(fr, e, _wq_mutates):
+                return [("havoc", "wqempty")]
+            return None
+        return PredAbs(fr.f, vocab, _inl(fb, leaf2), eff2, init=init if init is not None else T, track_bools=True)
+    thr = _Through(mk)
     for e in _write_calls(ds):
         r.instance()
-        r.expect(pa.entails(e, A("wqempty")), ds, e, "direct write with queued data",
+        r.expect(thr.entails(root, e, A("wqempty")), ds, e, "direct write with queued data",
                  "doSend writes the new payload straight to the socket although earlier payloads may still be queued: bytes overtake queued ones",
                  okdesc="direct %s only when wq is empty" % e.node["callee"])
-    ins = [e for e in ds.stmts() if _wq(e.node, ("emplace_back", "push_back", "emplace_front", "push_front", "insert", "emplace"))]
+    ins = [(fr, e) for (fr, e) in _events(root) if _wq_inserts(e)]
     if len(ins) < 3:
         r.fail(ds, None, "payload not queued", "doSend has fewer than three queueing sites (handshake, tail after partial write, would-block)")
-    for e in ins:
+    for (fr, e) in ins:
         m = _wq(e.node)
-        arg = strip_wrappers(e.node["args"][0]) if e.node["args"] else None
-        whole = arg is not None and (access_path(arg) or ("",))[-1].endswith("SendReq::payload")
+        # what is queued is decided from where the argument comes from (parameter -> argument, capture -> variable, local -> initialiser)
+        whole = _queued_what(fr, e)[0] == "whole"
+        known_empty = thr.entails(fr, e, A("wqempty"))
         r.instance()
         if whole:
-            r.expect(m in ("emplace_back", "push_back"), ds, e, "payload queued at front",
+            r.expect(m in ("emplace_back", "push_back"), fr.f, e, "payload queued at front",
                      "a whole new payload is queued with %s: it would be sent before payloads accepted earlier" % m, okdesc="whole payload queued at the back")
         else:
-            r.expect(m in ("emplace_front", "push_front") and pa.entails(e, A("wqempty")), ds, e, "tail not at front",
-                     "the unsent tail of a partially written payload is queued with %s %s: it must go to the front of an otherwise empty queue" % (
-                         m, "" if pa.entails(e, A("wqempty")) else "(queue not known empty)"), okdesc="unsent tail queued at the front of the empty queue")
+            r.expect(m in ("emplace_front", "push_front") and known_empty, fr.f, e, "tail not at front",
+                     "the unsent tail of a partially written payload is queued with %s %s: it must go to the front of an otherwise empty queue%s" % (
+                         m, "" if known_empty else "(queue not known empty)", "" if fr.parent is None else " [%s]" % fr.where(e)), okdesc="unsent tail queued at the front of the empty queue")
 
 
 # ------------------------------------------------------------------ R3
 
-def _pos_partial_leaf(nvar, sizeexpr_pred):
+def _pos_partial_leaf(fr, nv, is_size):
+    """atoms for the result variable nv ({"n","d"}) of a write call: pos = `nv >= 0`, partial = `nv < <size of what was written>`.
+    Both operands are read through casts, named locals and helper parameters (_resolve), so `const size_t sent = size_t(n); if (sent < total)`
+    is the same test as `if (size_t(n) < payload.size())`.  is_size(frame, node, at) recognises the size expression."""
     def leaf(n):
-        if n.get("k") == "bin" and n["op"] in (">", ">=", "<", "<=", "=="):
-            l, rr = strip_casts(n["lhs"]), strip_casts(n["rhs"])
-            if l.get("k") == "var" and l["n"] == nvar:
-                z = const_value(rr)
-                if z == 0 and rr.get("k") == "int":
-                    if n["op"] in (">", ">="):
-                        return A("pos")
-                    if n["op"] in ("<",):
-                        return Not(A("pos"))      # n < 0  (n <= 0 says nothing about n == 0 for send)
-                    if n["op"] == "<=":
-                        return None
-                if sizeexpr_pred(rr):
-                    if n["op"] == "<":
-                        return A("partial")
-                    if n["op"] in (">=", "=="):
-                        return Not(A("partial"))
+        if n.get("k") == "bin" and n["op"] in (">", ">=", "<", "<=", "==", "!="):
+            at = fr.f.elem_for(n) if n.get("id") is not None else None
+            if not _is_var(fr, n["lhs"], nv, at):
+                return None
+            rr = _val(fr, n["rhs"], at)
+            if rr is None:
+                return None
+            if rr.get("k") == "int" and const_value(rr) == 0:
+                # n > 0 / n == 0 imply n >= 0 but their negations do not refute it (and vice versa for n <= 0): partial formulas
+                return {">=": A("pos"), "<": Not(A("pos")), ">": ("and?", A("pos"), None), "==": ("and?", A("pos"), None),
+                        "<=": Not(("and?", A("pos"), None)), "!=": Not(("and?", A("pos"), None))}[n["op"]]
+            if is_size(fr, rr, at):
+                if n["op"] == "<":
+                    return A("partial")
+                if n["op"] in (">=", "=="):
+                    return Not(A("partial"))
+                if n["op"] == "!=":
+                    return None
         return None
     return leaf
 
 
 def r3(ctx, r):
+    fb = ctx.fb()
     ds = _fn(ctx, "doSend")
+    root = _Frame(fb, ds)
 
-    def is_payload_size(x):
-        return x.get("k") == "mcall" and last(x.get("callee", "")) == "size" and (access_path(x.get("obj")) or ("",))[-1].endswith("SendReq::payload")
-    for w in _write_calls(ds):
+    def is_payload_size(fr, x, at):
+        return x.get("k") == "mcall" and last(x.get("callee", "")) == "size" and _is_field(fr, x.get("obj"), "SendReq::payload", at)
+    wcalls = _write_calls(ds)
+    if not wcalls:
+        raise AnalysisBroken("doSend: no direct write call found (moved into a helper?) — the short-write clauses have nothing to anchor on")
+    for w in wcalls:
         nv = _result_var(ds, w)
         if nv is None:
             r.instance()
             r.fail(ds, w, "write result dropped", "the result of %s is not kept: a short or refused write cannot be handled" % w.node["callee"])
             continue
+        # the bytes offered to the socket are the request's payload from its first byte: data() of SendReq::payload and a length that
+        # is its size() or min(size(), …) (read through named locals such as `const size_t total = sr.payload.size()`)
+        r.instance()
+        wa = [_val(root, x, w) for x in w.node["args"]]
+        okd = any(x is not None and x.get("k") == "mcall" and last(x.get("callee", "")) == "data" and _is_field(root, x.get("obj"), "SendReq::payload", w) for x in wa)
+        oks = any(_at_most(root, x, w, is_payload_size) for x in w.node["args"])
+        r.expect(okd and oks, ds, w, "writes other bytes", "%s in doSend is not given the payload's data() and a length bounded by its size() (%s): the short-write handling below counts from the payload's first byte" % (
+            w.node["callee"], ", ".join(show(x) for x in w.node["args"][1:3])), okdesc="%s(payload.data(), payload.size())" % w.node["callee"])
         vocab = Vocab(["pos", "partial", "pending"])
-        leaf = _pos_partial_leaf(nv, is_payload_size)
 
-        def handled(e):
-            if e.kind != "stmt":
-                return False
-            if _wq(e.node, ("emplace_back", "push_back", "emplace_front", "push_front")):
-                return True
-            return e.node.get("k") == "mcall" and e.node.get("callee") == TE + "::closeNow"
-
-        def effects(e, w=w, nv=nv):
-            if e is w:
-                # ghost atom: bytes handed to the write call are not yet accounted for
-                return [("havoc_all", ["pos", "partial"]), ("set", "pending", True)]
-            if e.kind == "stmt" and e.node.get("k") == "bin" and e.node["op"] == "=" and e.node["lhs"].get("k") == "var" and e.node["lhs"]["n"] == nv and \
-                    not any(x is w.node for x in walk(e.node)):
-                return [("havoc_all", ["pos", "partial"])]
-            if handled(e):
-                return [("set", "pending", False)]
-            return None
-        pa = PredAbs(ds, vocab, leaf, effects, init=Not(A("pending")))
+        def mk(fr, init, w=w, nv=nv):
+            def effects(e):
+                if e is w:
+                    # ghost atom: bytes handed to the write call are not yet accounted for
+                    return [("havoc_all", ["pos", "partial"]), ("set", "pending", True)]
+                if fr.parent is None and e.kind == "stmt" and e.node.get("k") == "bin" and e.node["op"].endswith("=") and e.node["op"] not in ("==", "!=", "<=", ">=") and \
+                        e.node["lhs"].get("k") == "var" and e.node["lhs"].get("d") == nv["d"] and not any(x is w.node for x in walk(e.node)):
+                    return [("havoc_all", ["pos", "partial"])]
+                # queued (by the statement itself or by a helper every path of which queues) or closed
+                if e.kind == "stmt" and _does(fr, e, _queues_or_closes):
+                    return [("set", "pending", False)]
+                return None
+            return PredAbs(fr.f, vocab, _pos_partial_leaf(fr, nv, is_payload_size), effects, init=init if init is not None else Not(A("pending")), track_bools=True)
+        thr = _Through(mk)
+        pa = thr.pa(root)
         # at the function exit: nothing pending, unless the write was complete (n >= 0 and not short)
         r.instance()
         goal = Or(Not(A("pending")), And(A("pos"), Not(A("partial"))))
@@ -267,160 +854,198 @@ def r3(ctx, r):
                  "(known there: %s): bytes of an accepted send are lost" % (w.node["callee"], getattr(bad, "line", "end"),
                                                                           ",".join(pa.describe(bad)) if bad not in (None, "end") else ",".join(pa.describe_exit())),
                  okdesc="after %s every exit queued the rest, closed, or the write was complete" % w.node["callee"])
-        # the tail buffer is [payload.begin()+n, payload.end()) of this very n, built on the partial edge
+        # the buffer queued after a short write is [payload.begin()+n, payload.end()) of this very n.  It is found from the queue
+        # insertion (in doSend or in a helper / local lambda it calls): the inserted object is traced back to its construction
+        # from an iterator range, and the range's operands to doSend's own variables.
         tails = []
-        for e in ds.stmts():
-            if e.node.get("k") == "decl":
-                for v in e.node["vars"]:
-                    i = v.get("init")
-                    if i is not None and i.get("k") == "ctor" and len([a for a in i["args"] if not a.get("def")]) == 2 and "vector" in v["t"]:
-                        if search(ds, w, lambda x, e=e: x is e, eh=False, stop=lambda x: x is not w and x in _write_calls(ds)) is not None:
-                            tails.append((e, v))
+        for (fr, e) in _events(root):
+            if _wq_inserts(e):
+                q = _queued_what(fr, e)
+                if q[0] == "range" and (fr.top(e) is w or search(ds, w, lambda x, t=fr.top(e): x is t, eh=False, stop=lambda x: x is not w and x in wcalls) is not None):
+                    tails.append((fr, e, q))
         r.instance()
         if len(tails) != 1:
-            r.fail(ds, w, "no tail buffer", "no buffer holding the unsent tail is built after %s (found %d)" % (w.node["callee"], len(tails)))
+            r.fail(ds, w, "no tail buffer", "no buffer holding the unsent tail is built and queued after %s (found %d)" % (w.node["callee"], len(tails)))
             continue
-        te, tv = tails[0]
-        a0, a1 = [show(strip_wrappers(a)).replace(" ", "") for a in tv["init"]["args"][:2]]
-        ok = a0 in ("sr.payload.begin()+%s" % nv, "%s+sr.payload.begin()" % nv) and a1 == "sr.payload.end()"
-        r.expect(ok, ds, te, "tail range", "the re-queued tail is [%s, %s) instead of [payload.begin()+%s, payload.end()): bytes are duplicated or lost" % (a0, a1, nv),
-                 okdesc="tail = [begin+%s, end)" % nv)
+        fr, te, (_, first, lastit, rfr, rat) = tails[0]
+        rs, re_ = _range_start(first), _range_end(lastit)
+        why = None
+        if rs is None or re_ is None or not _is_field(rfr, rs[0], "SendReq::payload", rat) or not _is_field(rfr, re_, "SendReq::payload", rat):
+            why = "is not a range of the request's payload"
+        elif rs[1] is None:
+            why = "starts at payload.begin(): the bytes already written are queued again (duplicated)"
+        else:
+            ofr, on, oat, stale = _resolve(rfr, rs[1], rat)
+            on = strip_casts(on)
+            if stale:
+                # the offset is a lambda's by-value copy of the result variable, taken before the write assigned it
+                why = ("starts at payload.begin()+%s where `%s` is the lambda's own copy of %s's `%s`, captured BY VALUE at line %s — before the write at line %s "
+                       "assigns the byte count (the lambda is invoked at line %s): the offset is the stale value, so bytes already written are queued again (duplicated) "
+                       "or unwritten ones skipped" % (stale["var"], stale["var"], last(ds.name), stale["var"], stale["captured_at"],
+                                                      ",".join(str(x) for x in stale["assigned_at"]), stale["invoked_at"]))
+            elif not (ofr.parent is None and on is not None and on.get("k") == "var" and on.get("d") == nv["d"]):
+                why = "starts at payload.begin()+(%s), which is not the byte count `%s` returned by %s" % (show(on) if on is not None else "?", nv["n"], w.node["callee"])
+                dv = _decls(ofr.f).get(on.get("d")) if on is not None and on.get("k") == "var" else None
+                if dv is not None and ofr.parent is None and dv[1].get("init") is not None and any(x.get("k") == "var" and x.get("d") == nv["d"] for x in walk(dv[1]["init"])):
+                    why += " (`%s` was initialised from `%s` at line %s, but `%s` is assigned between that point and this use: it holds an older value)" % (on["n"], nv["n"], dv[0].line, nv["n"])
+        r.expect(why is None, fr.f, te, "tail range", "the re-queued tail [%s, %s) %s%s: bytes are duplicated or lost" % (
+            show(strip_wrappers(first)).replace(" ", ""), show(strip_wrappers(lastit)).replace(" ", ""), why, "" if fr.parent is None else " [queued in %s]" % fr.where(te)),
+                 okdesc="tail = [begin+%s, end)" % nv["n"])
         r.instance()
-        r.expect(pa.entails(te, And(A("pos"), A("partial"))), ds, te, "tail on wrong edge", "the tail buffer is not built exactly on the short-write edge (known: %s)" % ",".join(pa.describe(te)),
-                 okdesc="tail built only when 0 <= n < size")
-        # and it is the thing queued
-        q = [e for e in ds.stmts() if _wq(e.node, ("emplace_front", "push_front")) and tv["n"] in show(e.node) and elem_dominates(ds, te, e)]
+        r.expect(thr.entails(fr, te, And(A("pos"), A("partial"))), fr.f, te, "tail on wrong edge", "the tail buffer is not queued exactly on the short-write edge (known: %s)" % ",".join(thr.describe(fr, te)),
+                 okdesc="tail queued only when 0 <= n < size")
+        # and it goes to the front (the position relative to older data is R2's clause; here: it is queued at all, at the head)
         r.instance()
-        r.expect(bool(q), ds, te, "tail not queued", "the tail buffer is built but not put at the front of the write queue", okdesc="tail buffer queued at the front")
+        r.expect(_wq(te.node) in ("emplace_front", "push_front"), fr.f, te, "tail not queued", "the tail buffer is built but not put at the front of the write queue", okdesc="tail buffer queued at the front")
     # writePending
     wp = _fn(ctx, "writePending")
-
-    def is_front_size(x):
-        return x.get("k") == "mcall" and last(x.get("callee", "")) == "size" and (x.get("obj") or {}).get("k") == "var"
+    wroot = _Frame(fb, wp)
     ws = _write_calls(wp)
     if len(ws) < 2:
         raise AnalysisBroken("writePending: %d write calls found" % len(ws))
-    nvs = {_result_var(wp, w) for w in ws}
-    if len(nvs) != 1 or None in nvs:
+    nvl = [_result_var(wp, w) for w in ws]
+    if None in nvl or len({(x["n"], x["d"]) for x in nvl}) != 1:
         raise AnalysisBroken("writePending: write results are not kept in one variable")
-    nv = nvs.pop()
-    vocab = Vocab(["pos", "partial"])
-    leaf = _pos_partial_leaf(nv, is_front_size)
-
-    def eff(e):
-        if e in ws or (e.kind == "stmt" and e.node.get("k") == "decl" and any(v["n"] == nv for v in e.node["vars"])):
-            return [("havoc_all", ["pos", "partial"])]
-        return None
-    pa = PredAbs(wp, vocab, leaf, eff)
-    # which local is the queue front?
+    nv = nvl[0]
+    # which local is the queue front? (identified by its initialiser, whatever it is called)
     fronts = [v for e in wp.stmts() if e.node.get("k") == "decl" for v in e.node["vars"] if v.get("init") is not None and _wq(strip_wrappers(v["init"]), ("front",))]
     if len(fronts) != 1:
         raise AnalysisBroken("writePending: cannot identify the reference to wq.front()")
-    dn = fronts[0]["n"]
+    dn, dd = fronts[0]["n"], fronts[0].get("d")
+
+    def is_front(fr, x, at=None):
+        """x denotes the buffer at the head of the queue: the reference local bound to wq.front() (also when reached through a
+        helper's parameter) or wq.front() itself"""
+        x0 = strip_wrappers(x)
+        if fr.parent is None and x0 is not None and x0.get("k") == "var" and x0.get("d") == dd and x0.get("n") == dn:
+            return True
+        fr2, n2, at2, stale = _resolve(fr, x, at)
+        n2 = strip_casts(n2)
+        if stale or n2 is None:
+            return False
+        return bool(_wq(n2, ("front",))) or (fr2.parent is None and n2.get("k") == "var" and n2.get("d") == dd and n2.get("n") == dn)
+
+    def is_front_size(fr, x, at):
+        return x.get("k") == "mcall" and last(x.get("callee", "")) == "size" and is_front(fr, x.get("obj"), at)
+    vocab = Vocab(["pos", "partial"])
+
+    def mk(fr, init):
+        def eff(e):
+            if fr.parent is not None:
+                return None
+            if e in ws or (e.kind == "stmt" and e.node.get("k") == "decl" and any(v.get("d") == nv["d"] for v in e.node["vars"])):
+                return [("havoc_all", ["pos", "partial"])]
+            if e.kind == "stmt" and e.node.get("k") == "bin" and e.node["op"].endswith("=") and e.node["op"] not in ("==", "!=", "<=", ">=") and e.node["lhs"].get("k") == "var" and \
+                    e.node["lhs"].get("d") == nv["d"] and not any(x in [w.node for w in ws] for x in walk(e.node)):
+                return [("havoc_all", ["pos", "partial"])]
+            return None
+        return PredAbs(fr.f, vocab, _pos_partial_leaf(fr, nv, is_front_size), eff, init=init if init is not None else T, track_bools=True)
+    thr = _Through(mk)
     muts = 0
-    for e in wp.stmts():
+    # every change of the head buffer / of the queue, in writePending or in a helper it calls
+    for (fr, e) in _events(wroot):
         n = e.node
-        if n.get("k") == "mcall" and (n.get("obj") or {}).get("k") == "var" and n["obj"]["n"] == dn and last(n["callee"]) in access.MUTATORS:
+        if n.get("k") == "mcall" and not _wq(n) and last(n.get("callee", "")) in access.MUTATORS and is_front(fr, n.get("obj"), e):
             muts += 1
             r.instance()
             m = last(n["callee"])
             if m == "erase":
-                a = [show(strip_wrappers(x)).replace("__normal_iterator", "").replace(" ", "") for x in n["args"]]
-                ok = len(a) == 2 and a[0] in ("(%s.begin())" % dn, "%s.begin()" % dn) and a[1] in ("(%s.begin()+%s)" % (dn, nv), "%s.begin()+%s" % (dn, nv))
-                r.expect(ok and pa.entails(e, And(A("pos"), A("partial"))), wp, e, "front erase range",
-                         "on a short write the front buffer loses %s instead of exactly [begin, begin+%s) (or not only on the short-write edge)" % (a, nv),
-                         okdesc="short write: erase(begin, begin+%s)" % nv)
+                # the erased range is [front.begin(), front.begin()+n) with n the write's result (read through casts / named locals / parameters)
+                a = [x for x in n["args"] if not x.get("def")]
+                rs0, rs1 = (_range_start(a[0]), _range_start(a[1])) if len(a) == 2 else (None, None)
+                ok = rs0 is not None and rs1 is not None and is_front(fr, rs0[0], e) and rs0[1] is None and is_front(fr, rs1[0], e) and rs1[1] is not None and _is_var(fr, rs1[1], nv, e)
+                r.expect(ok and thr.entails(fr, e, And(A("pos"), A("partial"))), fr.f, e, "front erase range",
+                         "on a short write the front buffer loses %s instead of exactly [begin, begin+%s) (or not only on the short-write edge)" % (
+                             [show(_unwrap_iter(x)).replace(" ", "") for x in a], nv["n"]),
+                         okdesc="short write: erase(begin, begin+%s)" % nv["n"])
             else:
-                r.fail(wp, e, "front buffer %s" % m, "the partially written front buffer is modified by %s" % m)
+                r.fail(fr.f, e, "front buffer %s" % m, "the partially written front buffer is modified by %s" % m)
         if _wq(n) in access.MUTATORS:
             muts += 1
             r.instance()
             m = _wq(n)
-            r.expect(m == "pop_front" and pa.entails(e, And(A("pos"), Not(A("partial")))), wp, e, "wq.%s" % m,
-                     "the write queue is changed by %s on a path where the front buffer was not written completely (known: %s)" % (m, ",".join(pa.describe(e))),
+            r.expect(m == "pop_front" and thr.entails(fr, e, And(A("pos"), Not(A("partial")))), fr.f, e, "wq.%s" % m,
+                     "the write queue is changed by %s on a path where the front buffer was not written completely (known: %s)" % (m, ",".join(thr.describe(fr, e))),
                      okdesc="pop_front only after a complete write of the front buffer")
     if muts < 2:
         r.fail(wp, None, "queue never consumed", "writePending no longer removes written bytes from the queue (erase on short write, pop_front on full write)")
     # the bytes written are the front buffer's
     for w in ws:
         r.instance()
-        a = [show(strip_wrappers(x)) for x in w.node["args"]]
-        r.expect(any(x == dn + ".data()" for x in a) and any(dn + ".size()" in x for x in a), wp, w, "writes other bytes",
+        wa = [_val(wroot, x, w) for x in w.node["args"]]
+        okd = any(x is not None and x.get("k") == "mcall" and last(x.get("callee", "")) == "data" and is_front(wroot, x.get("obj"), w) for x in wa)
+        oks = any(_at_most(wroot, x, w, is_front_size) for x in w.node["args"])
+        r.expect(okd and oks, wp, w, "writes other bytes",
                  "%s is not given the front buffer's data()/size()" % w.node["callee"], okdesc="%s(front.data(), front.size())" % w.node["callee"])
 
 
 # ------------------------------------------------------------------ R4
 
 def r4(ctx, r):
+    fb = ctx.fb()
     ds, wp = _fn(ctx, "doSend"), _fn(ctx, "writePending")
+    root = _Frame(fb, ds)
 
-    def rearm(e):
-        return e.kind == "stmt" and e.node.get("k") == "mcall" and e.node.get("callee") in (TE + "::updateInterest", TE + "::closeNow")
-    for e in ds.stmts():
-        if _wq(e.node, ("emplace_back", "push_back", "emplace_front", "push_front")):
+    def unarmed_exit(fr, e):
+        """a path from element e to the return of doSend that passes no updateInterest/closeNow: followed out of the helper that
+        holds e into its caller(s); a call into a helper every path of which re-arms counts as re-arming"""
+        w = search(fr.f, e, "exit", stop=lambda x: _does(fr, x, _rearms), eh=False)
+        if w is None:
+            return None
+        if fr.parent is None:
+            return (fr, w)
+        return unarmed_exit(fr.parent, fr.call)
+    for (fr, e) in _events(root):
+        if e.kind == "stmt" and _wq(e.node, ("emplace_back", "push_back", "emplace_front", "push_front")):
             r.instance()
-            w = search(ds, e, "exit", stop=rearm, eh=False)
-            r.expect(w is None, ds, e, "queued without re-arm", "data is left in the write queue on a path that returns without updateInterest(): with edge-triggered epoll the tail is never sent",
-                     witness=witness_str(ds, w), okdesc="doSend: queueing is followed by updateInterest/closeNow")
+            u = unarmed_exit(fr, e)
+            r.expect(u is None, fr.f, e, "queued without re-arm", "data is left in the write queue on a path that returns without updateInterest(): with edge-triggered epoll the tail is never sent",
+                     witness=witness_str(u[0].f, u[1]) if u else None, okdesc="doSend: queueing is followed by updateInterest/closeNow")
     vocab = Vocab(["wqempty", "armed"])
+    wroot = _Frame(fb, wp)
 
     def leaf(n):
         if _wq(n, ("empty",)):
             return A("wqempty")
         return None
     wcalls = _write_calls(wp)
+    if not wcalls:
+        raise AnalysisBroken("writePending: no write call found (moved into a helper?) — the re-arm clause has nothing to anchor on")
 
     def eff(e):
         if e.kind != "stmt":
             return None
         if e in wcalls:
             return [("set", "armed", False)]      # ghost: the socket state changed, interest must be recomputed
-        if rearm(e):
+        if _does(wroot, e, _rearms):
             return [("set", "armed", True)]
-        if _wq(e.node) in access.MUTATORS:
+        if _may(wroot, e, _wq_mutates):
             return [("havoc", "wqempty")]
         return None
-    pa = PredAbs(wp, vocab, leaf, eff, init=A("armed"))
+    pa = PredAbs(wp, vocab, _inl(fb, leaf), eff, init=A("armed"), track_bools=True)
     r.instance(len(wcalls))
     bad = [ret for ret in common.returns(wp) if not pa.entails(ret, A("armed"))]
     r.expect(not bad and pa.exit_entails(A("armed")), wp, bad[0] if bad else None, "write without re-arm",
              "after a write call a path leaves writePending without updateInterest(): EPOLLOUT interest is stale (a stalled tail in edge-triggered mode, or a busy loop)",
              okdesc="writePending: every exit after a write passes updateInterest/closeNow")
-    # updateInterest: EPOLLOUT whenever the queue is non-empty
+    # updateInterest: EPOLLOUT whenever the queue is non-empty.  Decided on the values, not on names: every local bool is an atom
+    # (by declaration) that follows its initialiser and re-assignments; entered with a non-empty queue, no feasible path may
+    # reach modEpoll without having passed `<mask> |= EPOLLOUT`.
     ui = _fn(ctx, "updateInterest")
-    vocab = Vocab(["nonempty", "need"])
 
     def leaf2(n):
-        if n.get("k") == "var" and n["n"] == "needWrite":
-            return A("need")
         if _wq(n, ("empty",)):
             return Not(A("nonempty"))
         return None
-
-    def eff2(e):
-        if e.kind != "stmt":
-            return None
-        n = e.node
-        if n.get("k") == "decl":
-            for v in n["vars"]:
-                if v["n"] == "needWrite" and v.get("init") is not None:
-                    fm = translate(v["init"], leaf2)
-                    # need is at least (known disjuncts): nonempty -> need when `!wq.empty()` is a disjunct
-                    txt = show(v["init"])
-                    if "||" in txt and "!s->wq.empty()" in txt.replace(" ", "").replace("wq.empty()", "wq.empty()"):
-                        return [("havoc", "need"), ("assume", Or(Not(A("nonempty")), A("need")))]
-                    return [("havoc", "need")]
-        if n.get("k") == "bin" and n["op"] in ("=", "|=") and n["lhs"].get("k") == "var" and n["lhs"]["n"] == "needWrite":
-            rhs = strip_casts(n["rhs"])
-            if n["op"] == "|=" or (rhs.get("k") == "bin" and rhs["op"] == "||" and strip_casts(rhs["lhs"]).get("k") == "var" and strip_casts(rhs["lhs"])["n"] == "needWrite"):
-                return None    # monotone: need stays true if it was
-            return [("havoc", "need")]
-        return None
-    pa2 = PredAbs(ui, vocab, leaf2, eff2, init=A("nonempty"))
+    vocab2, leaf2b, eff2 = _with_bools(ui, ["nonempty"], _inl(fb, leaf2), lambda e: None)
+    pa2 = _PA(ui, vocab2, leaf2b, eff2, init=A("nonempty"))
     mods = [e for e in ui.stmts() if e.node.get("k") == "mcall" and e.node.get("callee") == TE + "::modEpoll"]
     sets = [e for e in ui.stmts() if e.node.get("k") == "bin" and e.node["op"] == "|=" and any(x.get("mac") == "EPOLLOUT" or x.get("cv") == 4 and x.get("k") in ("int", "enum") for x in walk(e.node["rhs"]))]
     r.instance()
     if not mods or not sets:
+        uroot = _Frame(fb, ui)
+        if any(_enter(uroot, e) is not None for e in ui.stmts()):
+            raise AnalysisBroken("updateInterest computes / applies the epoll mask through a helper: this clause reads the mask computation in updateInterest itself")
         r.fail(ui, None, "updateInterest shape", "updateInterest no longer computes EPOLLOUT interest and applies it with modEpoll")
     else:
         w = search(ui, ("entry",), lambda x: x in mods, stop=lambda x: x in sets, eh=False, edge_ok=lambda b, si: pa2.edge_feasible(b, si))
@@ -480,6 +1105,8 @@ def tls_effects(fb):
 def r5(ctx, r):
     fb = ctx.fb()
     vocab = Vocab(["tls", "hs", "open", "dh_ok"])
+    # the TLS tests may be spelled through a pure predicate helper (`static bool f(const Session*) { return tlsMode != None && …; }`)
+    tleaf = _inl(fb, tls_leaf)
     # invariant: tlsMode != None  =>  tlsState in {Handshake, Open}
     n_mode = 0
     for f in fb.in_file(FILE):
@@ -511,14 +1138,14 @@ def r5(ctx, r):
     eff = tls_effects(fb)
     # summary of driveHandshake: `return true` only with the session Open
     dh = _fn(ctx, "driveHandshake")
-    pa_dh = PredAbs(dh, vocab, tls_leaf, eff, init=TLS_AXIOM)
+    pa_dh = PredAbs(dh, vocab, tleaf, eff, init=TLS_AXIOM)
     for ret in common.returns(dh):
         if const_value(ret.node.get("v") or {}) == 1:
             r.instance()
             r.expect(pa_dh.entails(ret, And(A("open"), Not(A("hs")))), dh, ret, "handshake summary", "driveHandshake returns true on a path where tlsState is not Open",
                      okdesc="driveHandshake: return true ⇒ tlsState == Open")
     ds = _fn(ctx, "doSend")
-    pa = PredAbs(ds, vocab, tls_leaf, eff, init=TLS_AXIOM)
+    pa = PredAbs(ds, vocab, tleaf, eff, init=TLS_AXIOM, track_bools=True)
     for e in _write_calls(ds):
         if e.node["callee"] == "SSL_write":
             r.instance()
@@ -531,7 +1158,7 @@ def r5(ctx, r):
                          e.node["callee"], ",".join(pa.describe(e)) or "nothing"), okdesc="doSend: raw send only when tlsMode == None")
     # writePending: caller context from onSession
     os_ = _fn(ctx, "onSession")
-    pa_os = PredAbs(os_, vocab, tls_leaf, eff, init=TLS_AXIOM)
+    pa_os = PredAbs(os_, vocab, tleaf, eff, init=TLS_AXIOM, track_bools=True)
     calls = [e for e in os_.stmts() if e.node.get("k") == "mcall" and e.node.get("callee") == TE + "::writePending"]
     callers = {f.name for (f, e, n) in ctx.cg().callers.get(TE + "::writePending", [])}
     r.instance()
@@ -543,7 +1170,7 @@ def r5(ctx, r):
         r.expect(pa_os.entails(c, pre), os_, c, "writePending during handshake", "onSession can call writePending while the TLS handshake is still in progress",
                  okdesc="onSession: writePending only after the handshake branch")
     wp = _fn(ctx, "writePending")
-    pa_wp = PredAbs(wp, vocab, tls_leaf, eff, init=And(TLS_AXIOM, pre))
+    pa_wp = PredAbs(wp, vocab, tleaf, eff, init=And(TLS_AXIOM, pre), track_bools=True)
     for e in _write_calls(wp):
         r.instance()
         if e.node["callee"] == "SSL_write":
@@ -561,10 +1188,10 @@ def r6(ctx, r):
     reads = [e for e in ra.stmts() if e.node.get("k") == "call" and e.node.get("callee") in READ_CALLS]
     if len(reads) < 2:
         raise AnalysisBroken("readAvail: %d read calls" % len(reads))
-    nvs = {_result_var(ra, w) for w in reads}
-    if len(nvs) != 1 or None in nvs:
+    nvl = [_result_var(ra, w) for w in reads]
+    if None in nvl or len({(x["n"], x["d"]) for x in nvl}) != 1:
         raise AnalysisBroken("readAvail: read results are not kept in one variable")
-    nv = nvs.pop()
+    nv, nvd = nvl[0]["n"], nvl[0]["d"]
     invs = [(e, t) for (e, t) in common.fn_invocations(ra)]
     r.instance()
     if len(invs) != 1:
@@ -572,14 +1199,24 @@ def r6(ctx, r):
         return
     inv = invs[0][0]
     bv = common.bufferview_args(inv.node)
-    r.expect(bv == ["buf.data()", nv], ra, inv, "callback payload",
-             "the data callback is not given (buf.data(), %s) of the read that just returned: %s" % (nv, show(inv.node)[:120]), okdesc="onData(buf.data(), n)")
+    # the buffer is the one the read calls fill (their `<buffer>.data()` argument), whatever it is called
+    bufs = set()
+    for rd in reads:
+        for a_ in rd.node["args"]:
+            a_ = strip_casts(strip_wrappers(a_))
+            if a_ is not None and a_.get("k") == "mcall" and last(a_.get("callee", "")) == "data" and strip_casts(a_.get("obj") or {}).get("k") == "var":
+                bufs.add(show(a_).replace(" ", ""))
+    if len(bufs) != 1:
+        raise AnalysisBroken("readAvail: the read calls do not fill one local buffer (%s)" % sorted(bufs))
+    bufdata = bufs.pop()
+    r.expect(bv == [bufdata, nv], ra, inv, "callback payload",
+             "the data callback is not given (%s, %s) of the read that just returned: %s" % (bufdata, nv, show(inv.node)[:120]), okdesc="onData(buf.data(), n)")
     vocab = Vocab(["npos", "cb"])
 
     def leaf(n):
         if n.get("k") == "bin" and n["op"] in (">", "<=", "<", "=="):
             l, rr = strip_casts(n["lhs"]), strip_casts(n["rhs"])
-            if l.get("k") == "var" and l["n"] == nv and const_value(rr) == 0:
+            if l.get("k") == "var" and l["n"] == nv and l.get("d") == nvd and const_value(rr) == 0:
                 return {">": A("npos"), "<=": Not(A("npos")), "<": Not(A("npos")), "==": Not(A("npos"))}[n["op"]]
         if n.get("k") == "mcall" and last(n.get("callee", "")).startswith("operator bool") and (n.get("obj") or {}).get("k") == "var" and "std::function" in n["obj"].get("t", ""):
             return A("cb")
@@ -626,17 +1263,19 @@ def r6(ctx, r):
 def r7(ctx, r):
     fb = ctx.fb()
     ds = _fn(ctx, "doSend")
+    root = _Frame(fb, ds)
     vocab = Vocab(["cob"])
 
     def leaf(n):
         if n.get("k") == "member" and n["n"].endswith("::closeOnBackpressure"):
             return A("cob")
         return None
-    pa = PredAbs(ds, vocab, leaf, lambda e: None)
-    pops = [e for e in ds.stmts() if _wq(e.node, ("pop_front", "pop_back", "erase", "clear"))]
-    for e in pops:
+    thr = _Through(lambda fr, init: PredAbs(fr.f, vocab, _inl(fb, leaf), lambda e: None, init=init if init is not None else T, track_bools=True))
+    # removals from the write queue in doSend and in the helpers it runs through
+    pops = [(fr, e) for (fr, e) in _events(root) if e.kind == "stmt" and _wq(e.node, ("pop_front", "pop_back", "erase", "clear"))]
+    for (fr, e) in pops:
         r.instance()
-        r.expect(pa.entails(e, Not(A("cob"))), ds, e, "silent drop under default policy",
+        r.expect(thr.entails(fr, e, Not(A("cob"))), fr.f, e, "silent drop under default policy",
                  "queued data is dropped (wq.%s) on a path where closeOnBackpressure may be on: accepted bytes vanish without the session being reported closed" % _wq(e.node),
                  okdesc="oldest buffer dropped only when closeOnBackpressure is off")
     # default of the policy
